@@ -178,7 +178,7 @@ func (o *c11Oracle) state(w *World, e *EntitySpec, res *RunResult) entState {
 	st := entState{art: a}
 	hasCert, hasKey, hasCsr := a.Cert != nil, a.Key != nil, a.Csr != nil
 	// blocks that exist but do not decode: the statement does not say whether they count
-	undecodable := (a.CertBlk != nil && !hasCert) || (a.KeyBlk != nil && !hasKey) || (a.CsrBlk != nil && !hasCsr) || a.Pem.Garbage
+	undecodable := (a.CertBlk != nil && !hasCert) || (a.KeyBlk != nil && !hasKey) || (a.CsrBlk != nil && !hasCsr) || (a.Pem.Garbage && !a.Pem.Trailing)
 	switch {
 	case !exists:
 		st.artState = "absent"
@@ -512,7 +512,7 @@ func genC11BaseMode(r *Rng, farFuture bool) (*Plan, *HistGen) {
 	}
 	// per-entity state operations
 	kinds := []string{"strip-key", "strip-cert", "key-to-csr", "del-art", "strip-hash", "tamper-hash", "bad-hash",
-		"edit-subject", "edit-subject", "touch-cfg", "touch-art", "edit-profile", "nop", "nop", "sigalg-mismatch"}
+		"edit-subject", "edit-subject", "touch-cfg", "touch-art", "edit-profile", "nop", "nop", "sigalg-mismatch", "trailing-text"}
 	n := r.Range(0, 2+len(g.Ents))
 	for i := 0; i < n; i++ {
 		e := Pick(r, g.Ents)
@@ -549,6 +549,9 @@ func genC11BaseMode(r *Rng, farFuture bool) (*Plan, *HistGen) {
 			g.setEnt(ne)
 			g.P.Add(Op{K: "put-ent", Spec: ne, Label: "sigalg-mismatch"})
 			g.P.Meta["sigalg-mismatch"] = ne.ID
+		case "trailing-text":
+			// a remark or a blank line after the last block: the artifact holds what it held
+			g.P.Add(Op{K: "append-art", Ent: e.ID, Data: Pick(r, []string{"\n", "# kept by hand\n", "trailing text", "\n\n# note\n", " \n"}), Label: "trailing-text"})
 		case "touch-cfg":
 			g.P.Add(Op{K: "touch", Ent: e.ID})
 		case "touch-art":
